@@ -909,7 +909,11 @@ def set_schema(expression: exp.Expression, current_database: str | None) -> exp.
 
             schema = expression.this.name
             return exp.Command(
-                this="SET", expression=exp.Literal.string(f"schema = '{db_name}.{schema}'"), set_schema=schema
+                this="SET",
+                expression=exp.Literal.string(f"schema = '{db_name}.{schema}'"),
+                set_schema=schema,
+                # a qualified USE SCHEMA db.schema also changes the current database
+                set_schema_database=db.name if db else None,
             )
 
     return expression
